@@ -362,6 +362,33 @@ fn usize_const<'tcx>(tcx: TyCtxt<'tcx>, v: u64) -> ty::GenericArg<'tcx> {
 /// `@usize:<n>[,<n>..]` (const generic arguments, in order) or `@alias:<type alias path>`
 /// (generic arguments taken from the ADT the alias resolves to).  The special entry
 /// `*nongeneric` seeds every local fn without type/const parameters.
+/// (definition path, re-exported path) of the crate's items that are reachable under another path through `pub use`
+fn reexport_pairs<'tcx>(tcx: TyCtxt<'tcx>) -> Vec<(String, String)> {
+    let mut out = Vec::new();
+    for ldid in tcx.hir_crate_items(()).definitions() {
+        if !matches!(tcx.def_kind(ldid), DefKind::Mod) {
+            continue;
+        }
+        let modpath = path_str(tcx, ldid.to_def_id());
+        for child in tcx.module_children_local(ldid) {
+            if child.reexport_chain.is_empty() {
+                continue;
+            }
+            if let Some(did) = child.res.opt_def_id() {
+                if !did.is_local() || !matches!(tcx.def_kind(did), DefKind::Struct | DefKind::Enum | DefKind::Union | DefKind::Trait) {
+                    continue;
+                }
+                let public = if modpath.is_empty() { child.ident.name.to_string() } else { format!("{}::{}", modpath, child.ident.name) };
+                let target = path_str(tcx, did);
+                if public != target {
+                    out.push((target, public));
+                }
+            }
+        }
+    }
+    out
+}
+
 pub fn mono_graphs<'tcx>(tcx: TyCtxt<'tcx>, spec: &str) -> J {
     let mut w = Walker { tcx, index: HashMap::new(), insts: Vec::new(), edges: Vec::new(), events: Vec::new(), notes: Vec::new(), panics: Vec::new(), asserts: Vec::new(), work: Vec::new() };
     let mut roots_out = Vec::new();
@@ -396,7 +423,12 @@ pub fn mono_graphs<'tcx>(tcx: TyCtxt<'tcx>, spec: &str) -> J {
             Some((p, s)) => (p, Some(s)),
             None => (entry, None),
         };
-        let Some(&did) = by_path.get(path) else {
+        // an item that moved into another module and is re-exported under the requested path is still that root
+        let found = by_path.get(path).copied().or_else(|| {
+            let rex = reexport_pairs(tcx);
+            by_path.iter().find(|(k, _)| rex.iter().any(|(tgt, public)| k.starts_with(tgt.as_str()) && k[tgt.len()..].starts_with("::") && format!("{}{}", public, &k[tgt.len()..]) == path)).map(|(_, d)| *d)
+        });
+        let Some(did) = found else {
             roots_out.push(J::obj().set("spec", J::s(entry)).set("error", J::s("root not found")));
             continue;
         };
